@@ -28,7 +28,9 @@ fn main() {
         }
         i += 1;
     }
-    ba_harness::world::quiet_panics();
+    if std::env::var("BA_SHOW_PANICS").is_err() {
+        ba_harness::world::quiet_panics();
+    }
     let report = match prop.as_str() {
         "c12" => props::c12::run(&cfg),
         "c13" => props::c13::run(&cfg),
